@@ -142,4 +142,21 @@ theorem applyAll_cfg (cfg cfg' : Cfg) (ht : cfg.table = cfg'.table) (he : cfg.no
   | nil => rfl
   | cons x rest ih => simp only [applyAll, List.foldl_cons] at ih ⊢; rw [applyItem_cfg cfg cfg' ht he, ih]
 
+theorem slot_val_untouched (cfg : Cfg) (items : List (Item × Bytes)) (i : Nat) (st : St) (hi : i < st.slots.length)
+    (h : ∀ x ∈ items, ∀ d' v, itemTarget cfg x.1 = some (d', v) → d'.id ≠ i) :
+    ((applyAll cfg items st).slot i).val = (st.slot i).val := by
+  induction items generalizing st with
+  | nil => rfl
+  | cons x rest ih =>
+    simp only [applyAll, List.foldl_cons] at ih ⊢
+    rw [ih (applyItem cfg x.1 st) (by rw [applyItem_length]; exact hi) (fun y hy => h y (by simp [hy]))]
+    rw [slot_val_applyItem cfg x.1 st i hi]
+    cases ht : itemTarget cfg x.1 with
+    | none => rfl
+    | some r =>
+      obtain ⟨d', v⟩ := r
+      have := h x (by simp) d' v ht
+      simp [this]
+
+
 end MpVerif.C11
